@@ -16,6 +16,12 @@ HCL = {
     "div": "register cC { n:8 = 0; } c_n = C_n + 1; wire x:8; x = 8 / (2 - C_n); pc = 0; Stat = STAT_AOK;\n",
     "rej": "wire a:4; a = 0b11111; pc = 0; Stat = STAT_AOK;\n",
     "syn": "wire ;\n",
+    # parse errors at the very end of the file, the last token followed by blanks of more than one byte or a comment
+    "syn_nbsp": "pc = 0;\nStat =\u00a0# TODO",
+    "syn_wide": "pc = 0;\nStat = (\u3000\u3000",
+    "syn_eof": "pc = 0;\nStat = 1 +",
+    # a rejected file whose diagnostics name non-ASCII identifiers
+    "rej_uni": "pc = 0; Stat = STAT_HLT;\n\u00e9tat = 1;\nregister \u00e9 { k : 8 = 0; }\nwire w:8; w = \u65e5\u672c + 1;\n",
 }
 # cycles until the program stops by itself (None = never), error banner, abort cycle
 STOP = {"ok_halt": (3, "halted"), "ok_run": (None, None), "ok_err": (2, "error"), "div": (None, None)}
@@ -52,7 +58,7 @@ def prepare(workdir):
     shutil.rmtree(workdir, ignore_errors=True)
     os.makedirs(workdir)
     for n, t in HCL.items():
-        open(os.path.join(workdir, n + ".hcl"), "w").write(t)
+        open(os.path.join(workdir, n + ".hcl"), "w", encoding="utf-8").write(t)
     os.makedirs(os.path.join(workdir, "dir.hcl"))
     for n, t in YO.items():
         open(os.path.join(workdir, n + ".yo"), "w", encoding="utf-8").write(t)
@@ -120,7 +126,7 @@ def generate(binary, seed, count, outfile, workdir):
                         dup = True
                     canonical[n] = True
             # positionals
-            hcl = rnd.choice(["ok_halt", "ok_halt", "ok_run", "ok_err", "div", "rej", "syn", "missing", "dir"])
+            hcl = rnd.choice(["ok_halt", "ok_halt", "ok_run", "ok_err", "div", "rej", "syn", "missing", "dir", "syn_nbsp", "syn_wide", "syn_eof", "rej_uni"])
             traw = rnd.choice(TIMEOUTS)
             if hcl == "ok_run" and traw in ("4294967295",):
                 hcl = "ok_halt"        # a non-halting program with a 2^32-1 budget would run for hours
@@ -151,7 +157,7 @@ def generate(binary, seed, count, outfile, workdir):
                 if "quiet" in canonical:
                     opterr = True
                 canonical["quiet"] = True
-            hclstate = {"rej": "rejected", "syn": "rejected", "missing": "unreadable", "dir": "unreadable"}.get(hcl, "accepted")
+            hclstate = "rejected" if hcl.startswith(("rej", "syn")) else {"missing": "unreadable", "dir": "unreadable"}.get(hcl, "accepted")
             yostate = {"good": "loaded", "image.txt": "loaded", "shortline": "loaded", "missing": "unopenable",
                        "dir": "unloadable"}.get(yo, "unloadable")
             run = "finished"
